@@ -1,4 +1,5 @@
 import WS.Model.Handshake
+import WS.Props.C13Req
 /-
   C13 — Dial accepts only a valid server response (decision logic).
 -/
